@@ -273,7 +273,13 @@ def run_dpd(offset, peer):
     for k in range(1, 3 * DPD + 30):
         sa = next((s for s in w.endpoints['A'].controller.ike_sas if bytes(s.my_spi) == first_spi), None)
         could_probe = sa is not None and sa.state == State.ESTABLISHED
-        w.step(('tick', 1.0))
+        if peer == 'silent-busy-sockets':
+            # select() never times out: some socket is readable at least once a second (here: a 1-octet datagram from a
+            # host nobody knows).  The timers are served all the same.
+            w.step(('advance', 1.0))
+            w.step(('inject', 'A', b'\x00', '192.168.0.99'))
+        else:
+            w.step(('tick', 1.0))
         idle = w.clock - last_input
         new_probe = [d for d in w.step_emitted if d.sender == 'A' and d.data[18] == 37 and not d.data[19] & 0x20
                      and all(d.data != p[1] for p in probes)]
@@ -411,6 +417,7 @@ def dpd_cases():
         yield ('dpd', off, 'answering')
     yield ('dpd', 0, 'silent')
     yield ('dpd', 0, 'silent-with-noise')
+    yield ('dpd', 0, 'silent-busy-sockets')
     yield ('dpd-childless', 0, 'silent')
     for a_hi in (False, True):
         for peer in ('answering', 'silent', 'collides'):
